@@ -128,3 +128,72 @@ def malformed(rng):
                        "CREATE INDEX ON t (a)", "CREATE TABLE t (a PRIMARY)", "CREATE TABLE t (a DEFAULT)", "CREATE TABLE t (a) WITHOUT", "INSERT INTO t VALUES(1)",
                        "CREATE TABLE t (a, PRIMARY KEY ())", "CREATE TABLE t (a REFERENCES)", "SELECT * FROM t WHERE", "CREATE TABLE t (a CHECK ((((a)))))",
                        "CREATE TABLE t (a DEFAULT 99999999999999999999)", "CREATE TABLE t (a DEFAULT 0xffffffffffffffff)", "CREATE TABLE t (a DEFAULT 1e999)"])
+
+
+# ---------------------------------------------------------------- lexical stress (bytes, for the tokenizer model)
+_LETTERS = [0xE9, 0xC9, 0x3A9, 0x436, 0x5D0, 0x4E2D, 0x1F600, 0x10400, 0x2CEB0, 0xAA, 0xB5, 0x2C6, 0x16EE, 0x3007, 0xFFFD, 0x301, 0x200B, 0xFEFF, 0x2160]
+_DIGITS = [0x663, 0x6F9, 0x966, 0xFF15, 0x1D7D8, 0xB2, 0xBD, 0x2460]
+_SPACES = [0x85, 0xA0, 0x1680, 0x2003, 0x2028, 0x202F, 0x205F, 0x3000, 0x180E, 0x200B, 0x0B, 0x0C, 0x1C]
+_BADUTF = [b"\x80", b"\xbf", b"\xc0\x80", b"\xc1\xbf", b"\xc3", b"\xe0\x80\x80", b"\xe0\x9f\xbf", b"\xed\xa0\x80", b"\xed\xbf\xbf", b"\xe1\x80", b"\xf0\x80\x80\x80",
+           b"\xf0\x8f\xbf\xbf", b"\xf4\x90\x80\x80", b"\xf5\x80\x80\x80", b"\xf0\x9f\x98", b"\xff", b"\xfe", b"\xc3\x28", b"\xe2\x82\x28", b"\xf0\x9f\x28\x80"]
+_NUMS = ["0", "00", "007", "010", "9223372036854775807", "9223372036854775808", "18446744073709551615", "18446744073709551616", "0x0", "0X7fffffffffffffff",
+         "0x8000000000000000", "0xffffffffffffffff", "0x10000000000000000", "0x", "0xe", "0xE5e5", "0x1e+5", "0x1.8", "00x1", "1x", "1e5", "1E5", "1e+5", "1e-5", "1e", "1e+",
+         "1.e5", ".5", ".", "..", "1.", "1.5.2", ".e5", "5.e", "1e5e5", "1e5-3", "1e+-5", "9007199254740993", "9007199254740992.5", "9007199254740993.0", "9007199254740994.5",
+         "4.9406564584124654e-324", "2.4703282292062327e-324", "2.4703282292062328e-324", "2.47032822920623272088284396434110686182529901307162382212792841250337753635104375932649918180817996189898282347722858865463328355177969898199387398005390939063150356595155702263922908583924491051844359318028499365361525003193704576782492193656236698636584807570015857692699037063119282795585513329278343384093519780155312465972635795746227664652728272200563740064854999770965994704540208281662262378573934507363390079677619305775067401763246736009689513405355374585166611342237666786041621596804619144672918403005300575308490487653917113865916462395249126236538818796362393732804238910186723484976682350898633885879256283027559956575244555072551893136908362547791869486679949683240497058210285131854513962138377228261454376934125320985913276672363281251e-324",
+         "2.2250738585072014e-308", "2.2250738585072011e-308", "1.7976931348623157e308", "1.7976931348623158e308", "1.797693134862315807e308", "1.7976931348623159e308", "1e308", "1e309",
+         "1e-323", "1e-324", "1e-400", "1e400", "0e999999999", "1e99999999999999999999", "0." + "0" * 400 + "1e401", "1" + "0" * 330 + "e-330", "1" + "0" * 400, "0." + "0" * 340 + "1",
+         "123456789012345678901234567890", "0.1", "0.3", "1e23", "8.5e22", "5e-324", "179769313486231580793728971405303415079934132710037826936173778980444968292764750946649017977587207096330286416692887910946555547851940402630657488671505820681908902000708383676273854845817711531764475730270069855571366959622842914819860834936475292719074168444365510704342711559699508093042880177904174497791.999",
+         "179769313486231580793728971405303415079934132710037826936173778980444968292764750946649017977587207096330286416692887910946555547851940402630657488671505820681908902000708383676273854845817711531764475730270069855571366959622842914819860834936475292719074168444365510704342711559699508093042880177904174497792"]
+
+
+def _utf8(cp):
+    return chr(cp).encode("utf-8", "surrogatepass")
+
+
+def lexeme(rng):
+    """one lexical item as bytes, biased to the tokenizer's decision points"""
+    k = rng.random()
+    if k < .22:
+        if rng.random() < .55:
+            return rng.choice(_NUMS).encode()
+        if rng.random() < .5:
+            m = "".join(rng.choice("0123456789") for _ in range(rng.randint(1, 22)))
+            if rng.random() < .6:
+                p = rng.randint(0, len(m)); m = m[:p] + "." + m[p:]
+            e = rng.choice([rng.randint(-345, 320), rng.randint(-30, 30)])
+            return (m + rng.choice(["e", "E"]) + rng.choice(["", "+", "-"] if e >= 0 else ["-"]) + str(abs(e))).encode()
+        return "".join(rng.choice("0123456789.eExX+-") for _ in range(rng.randint(1, 10))).encode()
+    if k < .42:
+        q = rng.choice(["'", '"', "`", "["])
+        c = "]" if q == "[" else q
+        body = "".join(rng.choice(["a", " ", c, c + c, "é", "\n", "'", '"', "]", "[", "`", "x" * 5, "\\"]) for _ in range(rng.randint(0, 6)))
+        return (q + body + rng.choice([c, c, c, "", c + c, c + c + c])).encode()
+    if k < .60:
+        w = b""
+        for _ in range(rng.randint(1, 5)):
+            j = rng.random()
+            if j < .35:
+                w += rng.choice(["a", "Z", "_", "select", "Create", "TABLE", "rowid", "key", "x1", "9"]).encode()
+            elif j < .6:
+                w += _utf8(rng.choice(_LETTERS))
+            elif j < .8:
+                w += _utf8(rng.choice(_DIGITS))
+            elif j < .9:
+                w += rng.choice(_BADUTF)
+            else:
+                w += _utf8(rng.choice(_SPACES))
+        return w
+    if k < .75:
+        return "".join(rng.choice("><|/%&=!") for _ in range(rng.randint(1, 3))).encode()
+    if k < .85:
+        return rng.choice(["(", ")", ",", "+", "-", "~", "*", ";", "@", "#", "$", "?", ":", "{", "\\", "^", "\x00", "\x7f"]).encode()
+    if k < .93:
+        return rng.choice(_BADUTF)
+    return _utf8(rng.choice(_SPACES + _LETTERS + _DIGITS + [rng.randrange(0x80, 0x110000)]))
+
+
+def lexical(rng):
+    """a byte string of lexemes, with or without separators"""
+    n = rng.choice([1, 1, 2, 3, 5, 8])
+    sep = rng.choice([b" ", b" ", b"", b"", b"\t", b"\n", b"\xc2\xa0", b"\xe3\x80\x80"])
+    return sep.join(lexeme(rng) for _ in range(n)) + rng.choice([b"", b"", b" ", b"'", b">", b"\xc3"])
